@@ -23,28 +23,38 @@ Definition result_of (o : outcome) : result :=
 
 (* ------------------------------------------------------------------ *)
 (* Config.  OnFailure is one of: nil (FailtryConfig), the rotating closure of
-   FailoverConfig, or a user callback (FailfastConfig).  OnRetry is either nil (failfast)
-   or the closure that increments the "retried" item (failover and failtry; the sleep
-   interval is not modelled: the property is not about time). *)
+   FailoverConfig, or a user callback (FailfastConfig).  OnRetry is nil (failfast), the
+   closure of FailtryConfig or the closure of FailoverConfig: both increment the "retried"
+   item and return the back-off interval computed from minInterval / maxInterval
+   (time.Duration, in nanoseconds; Handler sleeps when it is positive). *)
 Inductive onfail := FNone | FRotate | FUser.
+Inductive onretry := RNone | RFailtry | RFailover.
 
-Record cfg := { retry : Z; idem : bool; on_failure : onfail; on_retry : bool }.
+Record cfg := { retry : Z; idem : bool; on_failure : onfail; on_retry : onretry;
+                min_interval : Z; max_interval : Z }.
 
-(* FailoverConfig(WithRetry r, WithIdempotent i): Retry defaults to 10 *)
-Definition failover_config (r : Z) (i : bool) : cfg :=
-  {| retry := r; idem := i; on_failure := FRotate; on_retry := true |}.
-Definition failtry_config (r : Z) (i : bool) : cfg :=
-  {| retry := r; idem := i; on_failure := FNone; on_retry := true |}.
+Definition has_retry (c : cfg) : bool := match on_retry c with RNone => false | _ => true end.
+
+(* FailoverConfig(WithRetry r, WithIdempotent i, WithMinInterval mn, WithMaxInterval mx):
+   the defaults are Retry 10, 500 ms, 5 s *)
+Definition failover_config (r : Z) (i : bool) (mn mx : Z) : cfg :=
+  {| retry := r; idem := i; on_failure := FRotate; on_retry := RFailover;
+     min_interval := mn; max_interval := mx |}.
+Definition failtry_config (r : Z) (i : bool) (mn mx : Z) : cfg :=
+  {| retry := r; idem := i; on_failure := FNone; on_retry := RFailtry;
+     min_interval := mn; max_interval := mx |}.
 (* FailfastConfig(cb): Retry = 0, OnRetry = nil; the fields stay assignable *)
 Definition failfast_config (r : Z) (i : bool) : cfg :=
-  {| retry := r; idem := i; on_failure := FUser; on_retry := false |}.
+  {| retry := r; idem := i; on_failure := FUser; on_retry := RNone;
+     min_interval := 0; max_interval := 0 |}.
 
 (* New(config): if cluster.Retry < 0 { cluster.Retry = 10 };  New() = New(FailoverConfig()) *)
 Definition new (c : cfg) : cfg :=
   if retry c <? 0
-  then {| retry := 10; idem := idem c; on_failure := on_failure c; on_retry := on_retry c |}
+  then {| retry := 10; idem := idem c; on_failure := on_failure c; on_retry := on_retry c;
+          min_interval := min_interval c; max_interval := max_interval c |}
   else c.
-Definition new_default : cfg := failover_config 10 false.
+Definition new_default : cfg := failover_config 10 false 500000000 5000000000.
 
 (* func getIndex(index *int64, n int64) int64 {
      if n > 1 { if i := atomic.AddInt64(index, 1); i < n { return i }
@@ -60,7 +70,8 @@ Definition get_index (index n : Z) : Z * Z :=
 (* per-call mutable state: clientContext.URL (as an index into client.URLs; -1 = nil),
    the failover closure's shared [index], the "retried" context item, and how often the
    OnFailure / OnSuccess callbacks ran *)
-Record cstate := { url : Z; index : Z; retried : Z; nfail : nat; nsucc : nat }.
+Record cstate := { url : Z; index : Z; retried : Z; nfail : nat; nsucc : nat;
+                   ivs : list Z }.  (* intervals OnRetry returned, newest first *)
 
 (* c.OnFailure(ctx), if not nil.  None = the closure panics:
      urls := client.URLs; clientContext.URL = urls[getIndex(&index, int64(len(urls)))]
@@ -69,20 +80,35 @@ Definition fail_step (c : cfg) (n : Z) (s : cstate) : option cstate :=
   match on_failure c with
   | FNone => Some s
   | FUser => Some {| url := url s; index := index s; retried := retried s;
-                     nfail := S (nfail s); nsucc := nsucc s |}
+                     nfail := S (nfail s); nsucc := nsucc s; ivs := ivs s |}
   | FRotate =>
       if n <=? 0 then None
       else let '(ix, u) := get_index (index s) n in
            Some {| url := u; index := ix; retried := retried s;
-                   nfail := S (nfail s); nsucc := nsucc s |}
+                   nfail := S (nfail s); nsucc := nsucc s; ivs := ivs s |}
   end.
 
-(* OnRetry of failover/failtry: retried := Items().GetInt("retried") + 1; Set("retried", retried) *)
-Definition retry_step (s : cstate) : cstate :=
-  {| url := url s; index := index s; retried := retried s + 1; nfail := nfail s; nsucc := nsucc s |}.
+(* OnRetry of FailtryConfig / FailoverConfig ([n] = len(client.URLs)):
+     retried := Items().GetInt("retried") + 1; Items().Set("retried", retried)
+     interval := minInterval * Duration(retried)             // failtry
+     interval := minInterval * Duration(retried - len(URLs)) // failover
+     if interval > maxInterval { interval = maxInterval }
+     return interval
+   (int64 overflow of the product is out of reach for the budgets considered) *)
+Definition interval_of (c : cfg) (n : Z) (rd : Z) : Z :=
+  let raw := match on_retry c with
+             | RFailover => min_interval c * (rd - n)
+             | _ => min_interval c * rd
+             end in
+  if raw >? max_interval c then max_interval c else raw.
+
+Definition retry_step (c : cfg) (n : Z) (s : cstate) : cstate :=
+  {| url := url s; index := index s; retried := retried s + 1; nfail := nfail s; nsucc := nsucc s;
+     ivs := interval_of c n (retried s + 1) :: ivs s |}.
 
 Definition success_step (s : cstate) : cstate :=
-  {| url := url s; index := index s; retried := retried s; nfail := nfail s; nsucc := S (nsucc s) |}.
+  {| url := url s; index := index s; retried := retried s; nfail := nfail s; nsucc := S (nsucc s);
+     ivs := ivs s |}.
 
 (* what one call of Cluster.Handler did: the URL index every attempt was sent to (in
    order), what was returned, and the state left behind *)
@@ -99,7 +125,8 @@ Definition push (u : Z) (o : obs) : obs :=
      if err == nil { OnSuccess; return }
      if c.OnFailure != nil { c.OnFailure(ctx) }
      if c.OnRetry == nil { return }
-     if idempotent && retried < retry { c.OnRetry(ctx); response, err = c.Handler(ctx, request, next) }
+     if idempotent && retried < retry { interval := c.OnRetry(ctx); if interval > 0 { time.Sleep(interval) }
+                                        response, err = c.Handler(ctx, request, next) }
    [idm] is Items().GetBool("idempotent", c.Idempotent); the comparison retried < retry is
    the test budget > 0 because retry is fixed during the call and OnRetry adds exactly 1 to
    retried (loop_lit below keeps the literal comparison and is proved equal). *)
@@ -111,11 +138,11 @@ Fixpoint loop (c : cfg) (n : Z) (idm : bool) (outs : nat -> outcome)
       match fail_step c n s with
       | None => stop s s RCrash
       | Some s1 =>
-          if negb (on_retry c) then stop s s1 (result_of o)
+          if negb (has_retry c) then stop s s1 (result_of o)
           else if negb idm then stop s s1 (result_of o)
           else match budget with
                | O => stop s s1 (result_of o)
-               | S b => push (url s) (loop c n idm outs b (S k) (retry_step s1))
+               | S b => push (url s) (loop c n idm outs b (S k) (retry_step c n s1))
                end
       end
   end.
@@ -133,9 +160,9 @@ Fixpoint loop_lit (fuel : nat) (c : cfg) (n : Z) (idm : bool) (rty : Z) (outs : 
           match fail_step c n s with
           | None => Some (stop s s RCrash)
           | Some s1 =>
-              if negb (on_retry c) then Some (stop s s1 (result_of o))
+              if negb (has_retry c) then Some (stop s s1 (result_of o))
               else if idm && (retried s1 <? rty) then
-                     match loop_lit f c n idm rty outs (S k) (retry_step s1) with
+                     match loop_lit f c n idm rty outs (S k) (retry_step c n s1) with
                      | None => None
                      | Some o' => Some (push (url s) o')
                      end
@@ -156,7 +183,7 @@ Definition budget_of (c : cfg) (cl : call) : nat := Z.to_nat (eff_retry c cl - i
 
 (* ClientContext.Init: URL = urls[0] if there is one (every call starts at the first URL) *)
 Definition start (n ix rd : Z) : cstate :=
-  {| url := if n >? 0 then 0 else -1; index := ix; retried := rd; nfail := 0; nsucc := 0 |}.
+  {| url := if n >? 0 then 0 else -1; index := ix; retried := rd; nfail := 0; nsucc := 0; ivs := [] |}.
 
 (* InvokeContext -> ... -> Cluster.Handler for one call; [n] = len(client.URLs),
    [ix] = the failover closure's index before the call *)
